@@ -152,6 +152,23 @@ def run_shard(spec, acc):
                     acc.count('C16:sessions_on_reused_universe')
                 finally:
                     world.close()
+            elif rng.random() < 0.35 and not cfg['alpha'].get('early_signals') and cfg['universe']['kind'] == 'static':
+                # one signals collection and alpha model serve two sessions one after the other (a comparison of two
+                # rebalance frequencies over the same period): in the second session they are fed once per close again
+                world = sesswl.make_world(cfg)
+                try:
+                    shared = {'share_universe': True, 'share_signals': True}
+                    first = dict(cfg, burn_in=None, rebalance='daily' if cfg['rebalance'] != 'daily' else 'end_of_month')
+                    first.pop('weekday', None)
+                    tr1 = sesswl.run_session(first, world, shared=shared)
+                    shared.pop('source', None)
+                    shared['prior_appends'] = list(tr1.appends)
+                    tr = sesswl.run_session(cfg, world, shared=shared)
+                    if tr1.error is None:
+                        core.guarded(PROP, acc, dict(cfg, shared_signals=True), sesswl.check_c16_session, cfg, world, tr, acc)
+                        acc.count('C16:second_sessions_on_a_shared_signals_collection')
+                finally:
+                    world.close()
             else:
                 tr, _ = sesswl.run_case(cfg, acc, PROP)
             acc.count('sessions:%s' % cfg['alpha']['kind'])
